@@ -153,7 +153,22 @@ func ruleParseBinOp(r *Run) {
 			}
 		}
 	}
-	inl := func(callee *ssa.Function, depth int) bool { return follow[callee] && depth <= 2 }
+	// ... and helpers on the way to them
+	for changed := true; changed; {
+		changed = false
+		for _, gf := range funcGroup(fn) {
+			if gf == fn || gf.Parent() != nil || follow[gf] {
+				continue
+			}
+			for _, c := range callsIn(gf) {
+				if callee := staticCallee(c); callee != nil && follow[callee] {
+					follow[gf] = true
+					changed = true
+				}
+			}
+		}
+	}
+	inl := func(callee *ssa.Function, depth int) bool { return follow[callee] && depth <= 3 }
 	if len(peeks) != 2 {
 		r.Ob("FE-ORD", "logql.(*parser).parseBinOp", "precedence climbing shape").Undecide(r.pos(fn.Pos()), "expected two peekBinOp calls (outer operator, look-ahead), found %d: the parser is not the precedence-climbing algorithm this rule understands", len(peeks))
 		return
